@@ -57,8 +57,11 @@ def _cfg(tag, kinds, zst, lens, spare, maxlen, maxids, maxops, inject, ops, mode
         txt += ["VIEW view", "INVARIANTS " + INVARIANTS, "PROPERTIES " + PROPERTIES]
     else:
         txt += ["INVARIANTS Emit"]
-    name = ".gen_vec_%s_%d.cfg" % (tag, os.getpid())
-    with open(os.path.join(SPEC, name), "w") as f:
+    # generated configurations live under .work (TLC takes an absolute -config path), nothing is written into spec/
+    d = os.path.join(WORK, "veccfg")
+    os.makedirs(d, exist_ok=True)
+    name = os.path.join(d, "vec_%s_%d.cfg" % (tag, os.getpid()))
+    with open(name, "w") as f:
         f.write("\n".join(txt) + "\n")
     return name
 
@@ -68,7 +71,7 @@ def _model_check(pid, cfgname, ops, workers, timeout):
         r = tlc("MC_Vec", cfgname, workers=workers, timeout=timeout, coverage=True, xmx="10g")
     finally:
         try:
-            os.unlink(os.path.join(SPEC, cfgname))
+            os.unlink(cfgname)
         except OSError:
             pass
     if r.error:
@@ -84,7 +87,7 @@ def _model_check(pid, cfgname, ops, workers, timeout):
 def _emit(cfgname, out, simulate=None, depth=None, workers=6, timeout=1500, append=False):
     """Run TLC on an emission configuration, stream its REPLAY lines into the NDJSON file `out`.
     Returns (behaviours written, states generated)."""
-    md = workdir("tlc-emit-%d-%s" % (os.getpid(), cfgname.strip(".").replace(".cfg", "")))
+    md = workdir("tlc-emit-%d-%s" % (os.getpid(), os.path.basename(cfgname).replace(".cfg", "")))
     cmd = ["java", "-Xss64m", "-XX:+UseParallelGC", "-Xmx10g", "-cp", JAR_CP, "tlc2.TLC", "-workers", str(workers),
            "-metadir", md, "-cleanup", "-noGenerateSpecTE", "-deadlock", "-config", cfgname]
     if simulate:
@@ -120,7 +123,7 @@ def _emit(cfgname, out, simulate=None, depth=None, workers=6, timeout=1500, appe
             p.kill()
         shutil.rmtree(md, ignore_errors=True)
         try:
-            os.unlink(os.path.join(SPEC, cfgname))
+            os.unlink(cfgname)
         except OSError:
             pass
     txt = "".join(tail)
@@ -349,8 +352,10 @@ def _check(pid, tier, tag, plan):
     }
     extra = plan.get("extra")
     if extra:
+        nv = len(out.violations)
         cov.update(extra(tier, out) or {})
-        rc = out.finish() if out.violations else rc
+        if len(out.violations) > nv:      # the arena half added violations: print them too
+            rc = out.finish()
     write_evidence(pid, tier, "model_checking", cov, time.time() - t0, violations=len(out.violations),
                    assumptions=plan["assumptions"])
     if not os.environ.get("VERIF_KEEP"):
@@ -431,12 +436,12 @@ def _arena_half(tier, out):
     # memory-level half of C16 (the allocator's is-last logic against split blocks) lives in the arena component
     try:
         import checks_arena
-        fn = getattr(checks_arena, "split_blocks_clause", None)
-        if fn is None:
-            return {"memory_level_half": "not built yet (checks_arena.split_blocks_clause missing)"}
-        return {"memory_level_half": fn(tier, out)}
     except ImportError:
         return {"memory_level_half": "not built yet (checks_arena missing)"}
+    fn = getattr(checks_arena, "split_parts_clause", None) or getattr(checks_arena, "split_blocks_clause", None)
+    if fn is None:
+        return {"memory_level_half": "not built yet (checks_arena.split_parts_clause missing)"}
+    return {"memory_level_half": fn(tier, out)}
 
 
 def check_c16(tier):
